@@ -166,6 +166,9 @@ type c23Op struct {
 	version  int32
 	contents []int // o: one; g: any number
 	line, ch uint32
+	// rawURI non-empty: a message about an "odd" document (malformed / exotic URI). Not part of the model's history:
+	// whatever the server does with that document, it must stay alive, keep answering, and use exactly this URI.
+	rawURI string
 }
 
 // c23URI: document `name` of the history that uses directory `dir` (a server process is reused for several
@@ -303,6 +306,13 @@ func c23RunHistory(ss *c23Session, texts []string, ops []c23Op, pipelined bool, 
 			ss.close()
 		}
 	}()
+	odd := map[string]bool{}
+	oddPubs := map[string]int{}
+	for _, op := range ops {
+		if op.rawURI != "" {
+			odd[op.rawURI] = true
+		}
+	}
 	handle := func(m *lsMsg) {
 		switch {
 		case m.Method == "textDocument/publishDiagnostics":
@@ -316,7 +326,11 @@ func c23RunHistory(ss *c23Session, texts []string, ops []c23Op, pipelined bool, 
 			json.Unmarshal(m.Params, &prm)
 			u, ok := c23ParseURI(dir, prm.URI)
 			if !ok {
-				u = "?" + prm.URI
+				if odd[prm.URI] {
+					oddPubs[prm.URI]++
+					return
+				}
+				u = "?" + strconv.QuoteToASCII(prm.URI)
 			}
 			var rs []lspRange
 			for _, d := range prm.Diagnostics {
@@ -383,12 +397,17 @@ func c23RunHistory(ss *c23Session, texts []string, ops []c23Op, pipelined bool, 
 	}
 	for i, op := range ops {
 		uri := c23URI(dir, op.name, op.variant)
+		if op.rawURI != "" {
+			uri = op.rawURI
+		}
 		var msg obj
 		switch op.kind {
 		case 'o':
 			msg = obj{"jsonrpc": "2.0", "method": "textDocument/didOpen", "params": obj{"textDocument": obj{
 				"uri": uri, "languageId": "tm", "version": op.version, "text": texts[op.contents[0]]}}}
-			pubs++
+			if op.rawURI == "" {
+				pubs++
+			}
 		case 'g':
 			ch := []obj{}
 			for _, c := range op.contents {
@@ -396,7 +415,7 @@ func c23RunHistory(ss *c23Session, texts []string, ops []c23Op, pipelined bool, 
 			}
 			msg = obj{"jsonrpc": "2.0", "method": "textDocument/didChange", "params": obj{
 				"textDocument": obj{"uri": uri, "version": op.version}, "contentChanges": ch}}
-			if len(op.contents) > 0 {
+			if len(op.contents) > 0 && op.rawURI == "" {
 				pubs++
 			}
 		case 'x':
@@ -413,6 +432,9 @@ func c23RunHistory(ss *c23Session, texts []string, ops []c23Op, pipelined bool, 
 			ok := true
 			switch op.kind {
 			case 'o', 'g':
+				if op.rawURI != "" {
+					break // no particular answer is required for an odd document
+				}
 				want := pubs
 				ok = waitFor(func() bool { return countPubs() >= want })
 			case 'd':
@@ -451,6 +473,12 @@ func c23RunHistory(ss *c23Session, texts []string, ops []c23Op, pipelined bool, 
 		}
 	}
 	for i, op := range ops {
+		if op.rawURI != "" {
+			if _, ok := replies[idBase+i+1]; op.kind == 'd' && !ok && dead == "" {
+				direct = append(direct, "no reply to textDocument/definition for the document "+strconv.QuoteToASCII(op.rawURI))
+			}
+			continue
+		}
 		switch op.kind {
 		case 'o', 'g':
 			if op.kind == 'g' && len(op.contents) == 0 {
@@ -479,7 +507,7 @@ func c23RunHistory(ss *c23Session, texts []string, ops []c23Op, pipelined bool, 
 	// direct oracle on the wire order: the reply to request k comes after the notifications of all requests before k
 	pubOp := []int{} // op index of the n-th publishing request
 	for i, op := range ops {
-		if op.kind == 'o' || (op.kind == 'g' && len(op.contents) > 0) {
+		if op.rawURI == "" && (op.kind == 'o' || (op.kind == 'g' && len(op.contents) > 0)) {
 			pubOp = append(pubOp, i)
 		}
 	}
@@ -988,6 +1016,9 @@ func c23(c *Ctx) {
 		"over 1..3 documents (two URI spellings per file, stale/negative versions, never-opened files, multi-entry change lists), pipelined or step by step; " +
 		"texts are generated grammars (valid, undefined references, redeclarations, missing %input, syntax errors, comments and quoted tokens with non-ASCII text), " +
 		"the shared random-CFG family rendered as .tm (conflicts, precedence, multiple and no-eoi inputs, lalr(2), markers, %expect), hand-written conflict shapes under eoi/no-eoi inputs, " +
+		"messages about documents with malformed / exotic URIs (bad percent escapes, spaces and control characters, bad hosts, `file:` without slashes, empty, " +
+		"very long, other schemes, Windows drive forms, percent-encoded and raw Unicode; a sweep over the whole pool plus random insertions): the server must stay alive, " +
+		"answer every request and publish only under URIs the client used (a killing URI is reported as C23-killer-uri); " +
 		"template/lookahead/set/interface/lexer-state grammars, the grammars of /repo/compiler/testdata (optionally turned no-eoi) and big grammars; every 8th history is a burst " +
 		"open small / change BIG / change small … on one document (size asymmetry); a server that dies or hangs is re-run per document and reported with the killing text; " +
 		"problems and identifiers of each text come from the real compiler/parser in-process. non-trivial = at least one publish and one definition on an open document; distinct by history."
@@ -1140,6 +1171,44 @@ func c23Histories(c *Ctx, bin string, mode c23Mode) {
 		items, _ := c23RunHistory(ss, []string{e.text}, ops, true, timeout)
 		c.Count("hist empty-change witness (defect mirror)")
 		c.Case(c23Line(mode, []c23Entry{e}, ops), strings.Join(append([]string{"wf=1"}, items...), " "), "")
+	}
+	// sweep: every odd URI at least once per run (open / definition / change / close), between messages about a
+	// normal document whose answers are compared with the model
+	{
+		e := c23Analyse("language l(go);\n:: lexer\nx: /x/\n:: parser\n%input S;\nS: x nosuch ;\n")
+		nURIs := len(c23OddURIs(0))
+		for from := 0; from < nURIs; from += 8 {
+			pool := c23OddURIs(ss.dirs + 1)
+			ops := []c23Op{{kind: 'o', name: 0, version: 1, contents: []int{0}}}
+			var used []string
+			for k := from; k < from+8 && k < nURIs; k++ {
+				u := pool[k]
+				used = append(used, u)
+				ops = append(ops, c23Op{kind: 'o', rawURI: u, version: 1, contents: []int{0}}, c23Op{kind: 'd', rawURI: u, line: 5, ch: 3},
+					c23Op{kind: 'g', rawURI: u, version: 2, contents: []int{0}}, c23Op{kind: 'x', rawURI: u},
+					c23Op{kind: 'g', name: 0, version: int32(k + 2), contents: []int{0}})
+				c.Count("op on an odd URI")
+			}
+			ops = append(ops, c23Op{kind: 'd', name: 0, line: 5, ch: 5})
+			items, direct := c23RunHistory(ss, []string{e.text}, ops, from%16 == 0, timeout)
+			line := c23Line(mode, []c23Entry{e}, ops)
+			for _, d := range direct {
+				c.Violate(d, line)
+			}
+			if n := len(items); n > 0 && (items[n-1] == "CRASH" || items[n-1] == "HANG" || items[n-1] == "NOSTART") {
+				found := false
+				for _, u := range used {
+					if c23ReportKillerURI(c, ss, u, timeout) {
+						found = true // keep going: report every URI of the chunk that kills the server
+					}
+				}
+				if found {
+					continue
+				}
+			}
+			c.Count("hist odd-URI sweep")
+			c.Case(line, strings.Join(append([]string{"wf=1"}, items...), " "), line)
+		}
 	}
 	for i := 0; i < n; i++ {
 		// contents
@@ -1302,6 +1371,29 @@ func c23Histories(c *Ctx, bin string, mode c23Mode) {
 			pipelined, hasPub, hasDef = true, true, true
 			c.Count("hist big-then-small burst")
 		}
+		var oddUsed []string
+		if i%8 != 3 && r.Intn(3) == 0 {
+			// messages about documents with malformed / exotic URIs, anywhere in the history
+			pool := c23OddURIs(ss.dirs + 1)
+			for k := 1 + r.Intn(3); k > 0; k-- {
+				u := pool[r.Intn(len(pool))]
+				op := c23Op{rawURI: u, version: int32(r.Intn(9)), contents: []int{r.Intn(len(tab))}}
+				switch x := r.Intn(10); {
+				case x < 5:
+					op.kind = 'o'
+				case x < 7:
+					op.kind = 'g'
+				case x < 8:
+					op.kind, op.contents = 'x', nil
+				default:
+					op.kind, op.contents, op.line, op.ch = 'd', nil, uint32(r.Intn(6)), uint32(r.Intn(6))
+				}
+				at := r.Intn(len(ops) + 1)
+				ops = append(ops[:at], append([]c23Op{op}, ops[at:]...)...)
+				oddUsed = append(oddUsed, u)
+				c.Count("op on an odd URI")
+			}
+		}
 		items, direct := c23RunHistory(ss, texts, ops, pipelined, timeout)
 		line := c23Line(mode, tab, ops)
 		for _, d := range direct {
@@ -1310,6 +1402,17 @@ func c23Histories(c *Ctx, bin string, mode c23Mode) {
 		if n := len(items); n > 0 && (items[n-1] == "CRASH" || items[n-1] == "HANG" || items[n-1] == "NOSTART") {
 			// which document kills the server? open each one alone on a fresh process
 			found := false
+			for _, u := range oddUsed {
+				if c23ReportKillerURI(c, ss, u, timeout) {
+					found = true
+					break
+				}
+			}
+			if found {
+				// the history without the odd messages is still a case of the model; its transcript is cut short
+				c.Count("hist killed by an odd URI")
+				continue
+			}
 			for _, t := range texts {
 				if c23ReportKiller(c, ss, t, "", timeout) {
 					found = true
@@ -1356,6 +1459,42 @@ func c23Histories(c *Ctx, bin string, mode c23Mode) {
 	}
 }
 
+// c23OddURIs: malformed and exotic document URIs.
+func c23OddURIs(dir int) []string {
+	d := fmt.Sprintf("h%d", dir)
+	return []string{
+		"file:///w/" + d + "/100%zz.tm", "file:///w/" + d + "/100%.tm", "file:///w/" + d + "/x%2", "file:///w/" + d + "/%",
+		"file:///w/" + d + "/a b.tm", "file:///w/" + d + "/tab\there.tm", "file:///w/" + d + "/ctl\x01\x7f.tm", "file:///w/" + d + "/nl\nx.tm",
+		"file://host with space/" + d + "/x.tm", "file://[::1/" + d + "/x.tm", "file://user:pa ss@host/" + d + "/x.tm",
+		"file:", "file:x.tm", "file:/w/" + d + "/one-slash.tm", "file://", "file:///", "", " ", ":", "::", "%", "?", "#frag",
+		"file:///w/" + d + "/" + strings.Repeat("long", 5000) + ".tm",
+		"untitled:Untitled-" + d, "untitled:", "vscode-vfs://github/org/repo/" + d + "/g.tm", "http://example.com/" + d + "/g.tm",
+		"https://example.com:99999/" + d, "git:/w/" + d + "/g.tm?ref=HEAD#L1", "FILE:///w/" + d + "/upper.tm", "File:///w/" + d + "/mixed.tm",
+		"file:///c%3A/" + d + "/x.tm", "file:///C:/" + d + "/x.tm", "file:///c:/" + d + "/x.tm", "file://C:/" + d + "/x.tm", "c:\\w\\" + d + "\\x.tm",
+		"file:///w/" + d + "/a%2Bb%20c.tm", "file:///w/" + d + "/a+b.tm", "file:///w/" + d + "/%C3%A9%F0%9F%98%80.tm", "file:///w/" + d + "/é😀.tm",
+		"file:///w/" + d + "/q.tm?x=1", "file:///w/" + d + "/q.tm#frag", "file:///w/" + d + "/..%2F..%2Fetc%2Fpasswd", "file:///w/" + d + "/%00.tm",
+		"/w/" + d + "/plain/path.tm", "relative/" + d + ".tm",
+	}
+}
+
+// c23ReportKillerURI: a document with this URI, opened alone on a fresh process.
+func c23ReportKillerURI(c *Ctx, ss *c23Session, uri string, timeout time.Duration) bool {
+	ss.close()
+	small := "language l(go);\n:: lexer\nx: /x/\n:: parser\n%input S;\nS: x ;\n"
+	items, _ := c23RunHistory(ss, []string{small}, []c23Op{
+		{kind: 'o', rawURI: uri, version: 1, contents: []int{0}},
+		{kind: 'd', rawURI: uri, line: 3, ch: 0},
+		{kind: 'x', rawURI: uri},
+	}, false, timeout)
+	got := strings.Join(items, " ")
+	if !strings.Contains(got, "CRASH") && !strings.Contains(got, "HANG") && !strings.Contains(got, "NOSTART") {
+		return false
+	}
+	c.Violate("the server process dies or stops answering ("+got+") when a document with this URI is opened, queried and closed (didOpen/definition/didClose)",
+		"C23-killer-uri "+strconv.QuoteToASCII(uri))
+	return true
+}
+
 // c23ReportKiller opens the text alone on a fresh server process; reports a violation (with the document text) when
 // the process dies or stops answering. `why` non-empty: report in any case (the in-process compiler already panicked).
 func c23ReportKiller(c *Ctx, ss *c23Session, text, why string, timeout time.Duration) bool {
@@ -1388,6 +1527,9 @@ func c23Line(mode c23Mode, tab []c23Entry, ops []c23Op) string {
 		cs = append(cs, hexs([]byte(e.text))+"/"+e.problems+"/"+e.ids)
 	}
 	for _, op := range ops {
+		if op.rawURI != "" {
+			continue
+		}
 		u := fmt.Sprintf("%d.%d", op.name, op.variant)
 		switch op.kind {
 		case 'o':
